@@ -20,6 +20,9 @@ ASSUMPTIONS = [
     'Callees are represented by their contracts: unary_app / binary_relation / binary_arith / Value::get_as_* (proved in unit eval_ops), Entity::is_descendant_of (unit entity_hier), Pattern::wildcard_match (unit pattern), Set::contains/is_subset/is_disjoint (spec functions set_mem/set_subset/set_disjoint), Entities::entity, extension function lookup and call, split(), Expr constructors (result shape), From conversions, error constructors (variant only).',
     'Recursion is admitted without a decreases clause (exec_allows_no_decreases_clause): termination is not proved; stack_size_check may report the recursion limit at any node (agrees always allows RecursionLimit).',
     'The advice-decorating closure of the `in` arm is replaced by an opaque class-preserving function.',
+    'C13 (psound.rs / rules.rs), assumed facts about values: the expression a value converts to (From<Value> for Expr) evaluates to that value under every environment, contains no unknown and is a record literal only for a record value with the same attribute names; a value whose type_of() is an entity type is an entity literal of that type; `==` on two entity literals is equality of the uids; mk_record (Value::record) of distinct (name, value) pairs is the record with exactly those attributes.',
+    'C13, assumed contracts: Expr::is_projectable (subexpressions().all(Lit|Unknown|Set|Var|Record)) is the recursive predicate projectable(); a residual returned by an extension function (the `unknown` constructor) has no typed unknown and is not a record literal; Expr::record over pairs whose names are the key order of some map yields a map with that key order and those values; the residual-building constructors (Expr::and/or/unary_app/binary_app/get_attr/has_attr/like/is_entity_type/ite_arc/set/call_extension_fn/unknown) produce the expression kind named in ctors.rs (and/or/is_entity_type: proved in unit builder).',
+    'C13, scope of the statement: a completion is total and of the declared kinds (refines / kinds_ok in psound.rs); the residual an environment holds for an unknown request variable or for an entity missing from a partial store is assumed to evaluate, under the completion, to the value the completion gives that variable / entity (this is how unknowns are named by EntityUIDEntry::evaluate and Entities::entity; those two functions are represented by uninterpreted views).',
 ]
 DERIVE = ['derive(Clone, Copy, PartialEq, Eq)']
 W = "impl<'e> Evaluator<'e>"
